@@ -54,7 +54,7 @@ def nullifSpec {α : Type} : List (Option α) → List (Option Bool) → List (O
 /-- `shift(array, k)`: row `i` of the result is row `i - k` of the input, null when that is
 out of range (the length is unchanged). -/
 def shiftSpec {α : Type} (vs : List (Option α)) (k : Int) : List (Option α) :=
-  (List.range vs.length).map (fun i =>
+  (List.range vs.length).map (fun (i : Nat) =>
     let j : Int := (i : Int) - k
     if j < 0 then none else (vs[j.toNat]?).getD none)
 
@@ -86,7 +86,7 @@ def Op.selected {β : Type} : Op (Option β) → List (Option β)
 /-- cut `rows` into batches of exactly `target` rows; the second component is the remainder
 (fewer than `target` rows) -/
 def chunkAll {α : Type} (target : Nat) (rows : List α) : List (List α) × List α :=
-  if h : 0 < target ∧ target ≤ rows.length then
+  if _h : 0 < target ∧ target ≤ rows.length then
     let r := chunkAll target (rows.drop target)
     (rows.take target :: r.1, r.2)
   else ([], rows)
